@@ -424,8 +424,12 @@ def gw_spec(rng, start, end, depths=(0.3, 0.8, 1.5, 2.5, 6.0, 30.0), p_multi=0.4
             if chance(rng, 0.6):
                 offs = offs + [span + int(rng.integers(5, 400))]
                 vals = vals + [round(max(0.1, base + float(rng.normal(0, 0.6))), 2)]
-        return {"method": method, "dates": [fmt(start + dt.timedelta(days=o)) for o in offs],
-                "values": vals}
+        dates = [fmt(start + dt.timedelta(days=o)) for o in offs]
+        if len(dates) > 2 and chance(rng, 0.25):
+            # the observations need not be listed in chronological order
+            order = [int(x) for x in rng.permutation(len(dates))]
+            dates, vals = [dates[j] for j in order], [vals[j] for j in order]
+        return {"method": method, "dates": dates, "values": vals}
     v = float(pick(rng, list(depths)))
     return {"method": "Constant", "dates": [fmt(start)], "values": [int(v) if (v >= 1 and v == int(v) and chance(rng, 0.5)) else v]}
 
